@@ -29,6 +29,7 @@ CONSTANTS Ops,            \* operation slots; each is used for at most one opera
           Tmo,            \* timeout values an operation may carry (0 = none, -1 = a zero-length timeout, n > 0 = n ticks)
           Horizon,        \* the clock stops advancing here (model checking only)
           AllowFaults,    \* transport faults enabled
+          AllowCancel,    \* the caller may drop an operation future while it waits (select!, an outer timeout): no scrub is sent
           AbstractTime,   \* TRUE: a timer may fire at any moment (no clock); FALSE: explicit clock `now`
           \* named deviations of the pinned code; all FALSE = the design the properties describe
           LeakSearchIdOnDone, AbandonKeepsTargetId, DirectStaysActive, StaleInsertAfterScrub
@@ -144,6 +145,15 @@ TimeoutCore(o) ==
   /\ deadline' = [deadline EXCEPT ![o] = NoDeadline]
   /\ UNCHANGED <<alloc, reqQ, maps, itemQ, itemTx, kind, oid, target, tmo, adapted, sres, envv, hist, now>>
 Timeout(o) == TimeGuard(o) /\ TimeoutCore(o)
+
+(* the caller drops the future of a waiting single operation (cancellation): the reply receiver goes away, nothing else
+   happens - in particular no ID scrub is sent.  Not part of any listed property; see DESIGN.md 12.4 *)
+Cancel(o) ==
+  /\ AllowCancel /\ phase[o] = "wait" /\ kind[o] = "single"
+  /\ phase' = [phase EXCEPT ![o] = "fail"]
+  /\ reply' = [reply EXCEPT ![o] = R("none")]
+  /\ deadline' = [deadline EXCEPT ![o] = NoDeadline]
+  /\ UNCHANGED <<alloc, queues, maps, itemQ, itemTx, itemRx, kind, oid, target, tmo, adapted, sstate, sres, envv, hist, now>>
 
 (* SearchStream::next(): the call, then one of four returns *)
 NextCall(o) ==
@@ -373,7 +383,7 @@ Tick == ~TimerDue /\ TickCore
 KnownIds == {oid[p] : p \in Ops} \ {0}
 CallerStep == \E o \in Ops : RecvReply(o) \/ ReplyDropped(o) \/ Timeout(o)
                              \/ NextItem(o) \/ NextDone(o) \/ NextClosed(o) \/ NextTimeout(o) \/ NextAbsorb(o)
-UserStep   == \E o \in Ops : NextCall(o) \/ Finish(o)      \* FinishFailed is unreachable through the public API
+UserStep   == \E o \in Ops : NextCall(o) \/ Finish(o) \/ Cancel(o)      \* FinishFailed is unreachable through the public API
 DriverStep == DrvScrub \/ DrvOp \/ DrvRecv \/ DrvRecvBad \/ DrvEof \/ DrvReqClosed
 StartStep  == \E o \in Ops, k \in {"single", "search", "abandon", "unbind"}, t \in Tmo, a \in BOOLEAN, tg \in KnownIds \cup {0} :
                  /\ k \in Kinds[o]
